@@ -301,14 +301,19 @@ pub fn run_scenario(sc: &Value, dir: &str) -> Vec<Value> {
                         let to_b = both && t % 2 == 1;
                         thread::spawn(move || {
                             let mut sent = 0usize;
+                            // a server that stops serving must not hold the driver for hours: the phase ends after 20 s
+                            let t0 = Instant::now();
                             for _ in 0..each {
+                                if t0.elapsed() > Duration::from_secs(20) {
+                                    break;
+                                }
                                 let mut b = [0u8; 1];
                                 if to_b && uds {
                                     if let Ok(mut s) = StdUnixStream::connect(&upath) {
                                         if s.write_all(&[QUICK]).is_ok() {
                                             sent += 1;
                                         }
-                                        let _ = s.set_read_timeout(Some(Duration::from_millis(2000)));
+                                        let _ = s.set_read_timeout(Some(Duration::from_millis(1000)));
                                         let _ = std::io::Read::read(&mut s, &mut b);
                                     }
                                     continue;
@@ -319,7 +324,7 @@ pub fn run_scenario(sc: &Value, dir: &str) -> Vec<Value> {
                                         sent += 1;
                                     }
                                     // wait for the server to close (the service is done): keeps the number of open sockets small
-                                    let _ = s.set_read_timeout(Some(Duration::from_millis(2000)));
+                                    let _ = s.set_read_timeout(Some(Duration::from_millis(1000)));
                                     let _ = std::io::Read::read(&mut s, &mut b);
                                 }
                             }
@@ -335,7 +340,8 @@ pub fn run_scenario(sc: &Value, dir: &str) -> Vec<Value> {
                 let ok = wait_until(Duration::from_secs(5), || sh.quick.load(Ordering::SeqCst) >= before + sent);
                 res["sent"] = json!(sent);
                 res["served"] = json!(sh.quick.load(Ordering::SeqCst) - before);
-                res["ok"] = json!(ok);
+                // (a phase cut short by its deadline has not shown that every connection is served)
+                res["ok"] = json!(ok && sent == threads * each);
             }
             "await_started" => {
                 let n = st["count"].as_u64().unwrap_or(0) as usize;
